@@ -1535,6 +1535,7 @@ func runC07(c *Check) {
 	c.MinInstances("C07-R11", 1)
 	ruleSightingWakesIncluder(c, p, "C07-R12")
 	ruleWorkerEndsOnlyStoppedOrReported(c, p, "C07-R13", []string{"DAIncluderLoop"})
+	ruleSignalTakenOnlyAtTheWait(c, p, "C07-R14")
 	c.MinInstances("C07-R12", 2)
 }
 
